@@ -80,6 +80,13 @@ claim("C13", "other",
       "DESIGN.md §3 C13, §2.4 G3/G4")
 
 
+claim("C02", "other",
+      "clang-AST facts of the bundled decNumber sources vs IEEE 754-2008 decimal128; Rust<->C agreement of constants, extern prototypes and #[repr(C)] layouts; MIR provenance of every FFI context argument; HIR operator->primitive table; must-pass-through (finite sanitizer) rule on evaluation-reachable number constructors",
+      "Static rule checking of what the property says can change without touching an asserted value: the context decContextDefault installs for DEC_INIT_DECQUAD is 34 digits / emax 6144 / emin -6143 / half-even / no traps / clamp (clang AST of the switch), the Rust constants, all 32 extern declarations and the three #[repr(C)] layouts agree with the C headers under build.rs's defines (lsu holds 34 digits), each of the 32 FFI context arguments is a fresh clone of the lazily initialised default context and no Rust code writes a context field, each of 20 operators/methods reaches exactly the decNumber primitive the General Decimal Arithmetic specification names with operands in order and the named rounding constant, and every evaluation-reachable FeelNumber constructor fed by a primitive that can produce Infinity/NaN must test dec_is_finite first. The last rule reports 7 genuine defects (Add, AddAssign, Sub, Mul, Div, exp, round), each confirmed with a FEEL expression and listed in known_findings.json; the repair changes operator signatures across the evaluator and is not a small patch.",
+      "Trusts clang's AST, rustc's HIR/MIR/layout computation and the correctness of decNumber's C arithmetic; the 34-digit correctly-rounded results themselves are not decided. Alignment of DecQuad (1) vs decQuad (8) is recorded as a note. fract() is an audited exception (|x - trunc x| < 1).",
+      "DESIGN.md §3 C02, §2.4 G9/G7")
+
+
 def main():
     checks = []
     for pid in sorted(CLAIMED):
